@@ -208,7 +208,7 @@ fn long_session_violation(case: &super::longsession::Case, what: &str) -> i32 {
     println!("  signature: C05|long-session|{}", case.label());
     println!("  witness:   one connection fed a repeating stream of whole frames, {}: {what}", case.label());
     let _ = std::fs::create_dir_all("/verif/replays/C05");
-    let _ = std::fs::write(&path, json!({"property": "C05", "site": "long-session", "tokio": case.tokio, "compressed": case.compressed, "cap": case.cap, "min_bytes": case.min_bytes}).to_string());
+    let _ = std::fs::write(&path, json!({"property": "C05", "site": "long-session", "tokio": case.tokio, "compressed": case.compressed, "cap": case.cap, "min_bytes": case.min_bytes, "exact": case.exact}).to_string());
     1
 }
 
@@ -237,7 +237,7 @@ pub fn c05(tier: Tier, replay: Option<String>) -> i32 {
                 };
             }
             if v["site"] == "long-session" {
-                let case = ls::Case { tokio: v["tokio"].as_bool().unwrap_or(false), compressed: v["compressed"].as_bool().unwrap_or(true), cap: v["cap"].as_u64().unwrap_or(0) as usize, min_bytes: v["min_bytes"].as_u64().unwrap_or(0) };
+                let case = ls::Case { tokio: v["tokio"].as_bool().unwrap_or(false), compressed: v["compressed"].as_bool().unwrap_or(true), cap: v["cap"].as_u64().unwrap_or(0) as usize, min_bytes: v["min_bytes"].as_u64().unwrap_or(0), exact: v["exact"].as_u64() };
                 return match crate::report::guard(|| ls::run(&case)) {
                     Ok(Ok(n)) => { println!("replay: {} frames received in order, then Disconnected - held", n); 0 },
                     Ok(Err(e)) if e.starts_with("MACHINERY") => { eprintln!("{e}"); 4 },
